@@ -237,6 +237,24 @@ func genC14(c *Ctx) {
 			c.addViolation(mk("oracle", "the validator's verdict or reported type differs from the descriptor rule", "typing:"+calls[len(calls)-1].N+":"+rc.T+rc.IO+":"+strings.Fields(expect)[0]+">"+strings.Fields(got)[0]))
 			return
 		}
+		if accept && pt == "Boolean" && pio == "Single" {
+			// a call chain that is accepted and reported Boolean/Single is a condition: as the operand of a group (top-level, nested,
+			// group-valued argument) the same calls are accepted, and the group is Boolean/Single
+			for gi, gq := range []string{"{AND," + q + "}", "{" + q + "}", "{OR," + q + ",{" + q + "}}", "{$.input.recv.IsNull(),{AND," + q + "}}"} {
+				if gi >= 2 && c.N%3 != 0 {
+					continue
+				}
+				og := cueValidateGuarded(gq, txt, "")
+				gl, _ := json.Marshal(map[string]any{"s": root, "p": []string{"input", "recv"}, "cp": "", "pos": "group", "dom": true})
+				c.Record(gl, og.Line, "as-group-operand", true, "as-group-operand|"+q[len("$.input.recv"):]+"|"+rc.T+rc.IO, og.Line,
+					map[string]any{"query": gq, "schema": txt, "impl": og.Line, "expected": "ACC Boolean Single", "class": "as-group-operand"})
+				if og.Line != "ACC Boolean Single" {
+					c.addViolation(Violation{Kind: "oracle", Query: gq, QueryHex: hx(gq), Expected: "ACC Boolean Single", Got: og.Line, Cls: "as-group-operand",
+						Why: "a call chain accepted as Boolean/Single on its own is not accepted as the operand of a group", Key: "typing:group-operand:" + calls[len(calls)-1].N + ":" + rc.T + rc.IO,
+						Extra: map[string]any{"schema": txt, "errors": trunc(og.Errs, 300), "receiver": rc.T + "/" + rc.IO}})
+				}
+			}
+		}
 		if !accept || !conformant {
 			return
 		}
